@@ -151,5 +151,6 @@ class QTensorLinear(torch.autograd.Function):
 
 
 @register_qtensor_func([torch.nn.functional.linear])
-def linear(func, input, other, bias=None):
-    return QTensorLinear.apply(input, other, bias)
+def linear(func, input, weight, bias=None):
+    # The parameters are named as those of torch.nn.functional.linear, that can be passed as keyword arguments
+    return QTensorLinear.apply(input, weight, bias)
